@@ -62,7 +62,7 @@ def run_harness(builder, item, tier, deadline_s, outdir):
     out = os.path.join(outdir, sanitize(item["harness"] + "." + ",".join(map(str, item.get("args", [])))) + ".json")
     bound = item.get("thorough" if tier == "thorough" else "quick", item.get("quick", 2))
     cmd = [exe, "--run", item["harness"], "--bound", str(bound), "--workers", str(item.get("workers", 16)),
-           "--deadline", "%.0f" % max(5.0, deadline_s), "--out", out, "--stderr-dir", os.path.join(VERIF, "build", "run")]
+           "--deadline", "%.0f" % max(5.0, deadline_s), "--out", out, "--stderr-dir", os.path.join(vbuild.BUILD, "run")]
     if item.get("args"):
         cmd += ["--args", ",".join(map(str, item["args"]))]
     for k in ("max-steps", "hang-timeout", "cache-bits", "max-failures"):
@@ -110,7 +110,7 @@ def header_list():
 
 
 def header_compiles(cfg, hdr):
-    d = os.path.join(VERIF, "build", "hdr", cfg)
+    d = os.path.join(vbuild.BUILD, "hdr", cfg)
     os.makedirs(d, exist_ok=True)
     src = os.path.join(d, sanitize(hdr) + ".cpp")
     with open(src, "w") as f:
@@ -136,7 +136,7 @@ def header_matrix(configs, base_of):
             th.update(os.path.relpath(os.path.join(root, f), inc).encode())
             th.update(open(os.path.join(root, f), "rb").read())
     th.update(repr(sorted(vbuild.CONFIGS.items())).encode())
-    cpath = os.path.join(VERIF, "build", "hdr", "cache.json")
+    cpath = os.path.join(vbuild.BUILD, "hdr", "cache.json")
     try:
         cache = json.load(open(cpath))
         if cache.get("tree") != th.hexdigest():
@@ -181,7 +181,7 @@ def run_config_diff(r):
             print("\n".join(errs))
             return 2
         item = {"exe": r["exe"], "harness": r["harness"], "args": r["args"], "quick": r["bound"]}
-        rep, err = run_harness(b, item, "quick", 600, os.path.join(VERIF, "build", "run", "replay"))
+        rep, err = run_harness(b, item, "quick", 600, os.path.join(vbuild.BUILD, "run", "replay"))
         if err:
             print(err)
             return 2
@@ -226,7 +226,7 @@ def replay(path):
     if errs:
         print("\n".join(errs))
         return 2
-    cmd = [b.exe(r["exe"]), "--replay", r["harness"], "--choices", r["choices"], "--stderr-dir", os.path.join(VERIF, "build", "run")]
+    cmd = [b.exe(r["exe"]), "--replay", r["harness"], "--choices", r["choices"], "--stderr-dir", os.path.join(vbuild.BUILD, "run")]
     if r.get("args"):
         cmd += ["--args", ",".join(map(str, r["args"]))]
     if r.get("tso"):
@@ -287,7 +287,7 @@ def main():
         print("\n".join(build_fail[0][1]))
         sys.exit(2)
     build_s = time.time() - t0
-    outdir = os.path.join(VERIF, "build", "run", prop + "-" + tier)
+    outdir = os.path.join(vbuild.BUILD, "run", prop + "-" + tier)
     os.makedirs(outdir, exist_ok=True)
     # seed only permutes the order in which harnesses are run; coverage is seed independent
     if seed:
